@@ -382,12 +382,12 @@ class List(list, base.Symbolic, pg_typing.CustomTyping):
         non_defaults[idx] = elem
     return non_defaults
 
-  def seal(self, sealed: bool = True) -> 'List':
+  def sym_seal(self, is_seal: bool = True) -> 'List':
     """Seal or unseal current object from further modification."""
     for elem in self.sym_values():
       if isinstance(elem, base.Symbolic):
-        elem.seal(sealed)
-    super().seal(sealed)
+        elem.seal(is_seal)
+    super().sym_seal(is_seal)
     return self
 
   def _update_children_paths(
